@@ -399,6 +399,14 @@ func (w *world) step() {
 			act = kRenew
 			continue
 		}
+		if !w.prof.sharedLO && w.wouldShareLockOwner(op) {
+			// Soundness: one lock-owner is used with at most one open
+			// per file (see ASSUMPTIONS); decided on the server's
+			// state, the client may have forgotten its lock state.
+			w.label("excluded_lock_owner_on_two_opens_of_one_file")
+			act = kLockt
+			continue
+		}
 		if len(w.flights) >= 3 {
 			op.Park = ""
 		}
@@ -427,6 +435,28 @@ func (w *world) followUp(c *cClient, op *opSpec) {
 			return
 		}
 	}
+}
+
+// wouldShareLockOwner reports whether a LOCK with a new lock-owner would
+// give that lock-owner lock state on a second open of the same file.
+func (w *world) wouldShareLockOwner(op *opSpec) bool {
+	if op.Kind != kLock || !op.NewLO {
+		return false
+	}
+	of := w.m.ofByOth[op.Stateid.Other]
+	if of == nil {
+		return false
+	}
+	lo := of.oo.conf.los[op.LockOwner]
+	if lo == nil {
+		return false
+	}
+	for _, lf := range lo.files {
+		if lf.of != of && lf.of.leaf == of.leaf {
+			return true
+		}
+	}
+	return false
 }
 
 // targetOO is the open-owner whose transaction the request would join.
